@@ -1351,3 +1351,62 @@ def gen_meta_program(rng, path, nprocs, fmt=None, hints='-', ohints=None, flush_
     p.tags.add('meta')
     p.tags.add('meta-fmt%d' % fmt)
     return p
+
+
+def gen_cancel_program(rng, path, nprocs=1, fmt=None, hints='-'):
+    """directed: several multi-record nonblocking requests with DIFFERENT record counts pending on one variable (each is split
+    into one sub-request per record), one in the middle or at the front is cancelled by id, a strict subset of the rest is
+    completed by id, then the remainder -- the bookkeeping that maps each request to its sub-requests must survive the cancel.
+    Done for puts, then for gets of what was written.  Every rank runs the same independent sequence on its own variable."""
+    fmt = fmt or rng.choice([1, 2, 5])
+    p = Prog(path, nprocs)
+    p.all('create %s %d clobber %s' % (path, fmt, hints))
+    p.all('def_dim t 0')
+    p.all('def_dim x 3')
+    for r in range(nprocs):
+        p.all('def_var r%d int 2 t x' % r)
+    p.all('enddef')
+    p.all('begin_indep')
+    vs = ValueSource(rng)
+    nreq = rng.range(3, 5)
+    cnts = [rng.choice([1, 1, 2, 3, 5, 8]) for _ in range(nreq)]
+    if len(set(cnts)) == 1:
+        cnts[1] += 3
+    starts, a = [], 0
+    for c in cnts:
+        starts.append(a); a += c
+    numrecs = 0
+    for phase in ('iput', 'iput2', 'iget'):
+        # (the get phase reads those of the same record ranges that exist by then)
+        order = rng.shuffle(list(range(nreq)))                 # posting order differs from file order
+        if phase == 'iget':
+            order = [i for i in order if starts[i] + cnts[i] <= numrecs]
+            if len(order) < 3:
+                break
+        names = ['%s%d_%d' % (phase[1], ['iput', 'iput2', 'iget'].index(phase), i) for i in range(nreq)]
+        for i in order:
+            if phase != 'iget':
+                p.per_rank({r: nb_text('iput', names[i], 'vara', Var('r%d' % r, 'int', [('t', 0), ('x', 3)], True), 'int', 'c', [starts[i], 0], [cnts[i], 3], None, None, vs.take(cnts[i] * 3)) for r in range(nprocs)})
+            else:
+                p.per_rank({r: nb_text('iget', names[i], 'vara', Var('r%d' % r, 'int', [('t', 0), ('x', 3)], True), 'int', rng.choice(['c', 'v2']), [starts[i], 0], [cnts[i], 3], None, None, None) for r in range(nprocs)})
+        p.all('inq_nreqs')
+        victim = order[rng.range(0, len(order) - 2)]            # never the last posted one: later requests follow it in the queue
+        if phase != 'iget':
+            numrecs = max([numrecs] + [starts[i] + cnts[i] for i in order if i != victim])
+        p.all('cancel 1 %s' % names[victim])
+        rest = [names[i] for i in order if i != victim]
+        sub = rest[1:] if len(rest) > 1 else rest
+        sub = sub[:max(1, len(sub) - 1)] if len(sub) > 1 else sub
+        p.all('inq_nreqs')
+        p.all('wait i %d %s' % (len(sub), ' '.join(sub)))
+        p.all('inq_nreqs')
+        p.all('waitall i ALL')
+        p.all('inq_nreqs')
+        p.all('sync_numrecs')
+        p.all('inq_numrecs')
+        for r in range(nprocs):
+            p.per_rank({r: 'get vara i r%d int c 0,0 %d,3 - -' % (r, numrecs)}) if phase == 'iput2' else None
+    p.all('end_indep')
+    p.all('close')
+    p.tags.add('cancel-middle-multirecord')
+    return p
